@@ -3,6 +3,7 @@ import json, os, re
 
 SPEC_DIR = os.path.join(os.path.dirname(os.path.abspath(__file__)), '..', 'spec')
 
+MAX_POLL = 8
 OP_FIELDS = ['k', 'o', 'g', 'aw', 'body', 'panic', 'block', 'f', 'then', 'n', 't', 'par', 'p']
 
 
@@ -24,6 +25,16 @@ def flatten(scn):
     for th in scn['threads']:
         for op in th['ops']:
             walk(op, th['name'], 0)
+    # synthetic jobs of the pipe layer: poll jobs (one per wake), the two reference-chute jobs and the final free of the Desync
+    for i, r in list(ops.items()):
+        if r['k'] in ('pipe', 'pipe_in'):
+            p = r['p']
+            base = dict(g=0, aw=[], body=[], panic=False, block=0, f=0, then='keep', t='', par=0, p=p)
+            for k in range(1, MAX_POLL + 1):
+                ops[1000 + 20 * p + k] = dict(base, k='pipepoll', o=r['o'], n=k)
+            ops[1500 + 10 * p + 1] = dict(base, k='chute_release', o=scn['objects'] + 1, n=0)
+            ops[1500 + 10 * p + 2] = dict(base, k='chute_dropfn', o=scn['objects'] + 1, n=0)
+            ops[1500 + 10 * p + 3] = dict(base, k='pipe_free', o=r['o'], n=0)
     return ops
 
 
@@ -105,7 +116,7 @@ def mc_constants(scn, fixes):
         'MC_MaxDW == %d' % ndw,
         'MC_Single == %s' % ('TRUE' if len(threads) == 1 else 'FALSE'),
     ]
-    for f in ['FixD1', 'FixD2', 'FixD3', 'FixD6']:
+    for f in ['FixD1', 'FixD2', 'FixD3', 'FixD5', 'FixD6']:
         lines.append('MC_%s == %s' % (f, 'TRUE' if fixes.get(f, False) else 'FALSE'))
     return '\n'.join(lines)
 
@@ -123,6 +134,7 @@ CONST_CFG = '''CONSTANTS
   FixD1 <- MC_FixD1
   FixD2 <- MC_FixD2
   FixD3 <- MC_FixD3
+  FixD5 <- MC_FixD5
   FixD6 <- MC_FixD6
   defaultInitValue = defaultInitValue
 '''
@@ -135,7 +147,8 @@ def write_mc(scn, fixes, outdir, name='MC'):
 EXTENDS DesyncImpl, TLCExt
 %s
 SilentLabels == {%s}
-SilentPriority == (\\E p \\in Procs : pc[p] \\in SilentLabels) => (\\E p \\in Procs : pc[p] \\in SilentLabels /\\ pc'[p] # pc[p])
+IsSilent(p) == pc[p] \\in SilentLabels \\/ (atomic[p] /\\ pc[p] # "Done" /\\ ~(pc[p] = "st_dormant" /\\ thrHeld = p))
+SilentPriority == (\\E p \\in Procs : IsSilent(p)) => (\\E p \\in Procs : IsSilent(p) /\\ (pc'[p] # pc[p] \\/ stack'[p] # stack[p]))
 QS == [o \\in Objs |-> <<qstate[o], Len(jobs[o])>>]
 NoViol == h.viol = {}
 QuiescentOK == (~ENABLED Next) => ObsQuiescent(h, QS, MC_Single).viol = {}
